@@ -7,4 +7,5 @@ import build
 names = [os.path.splitext(os.path.basename(s))[0] for s in glob.glob(os.path.join(build.VERIF, "harness", "*.cpp"))]
 for fl in ("plain", "asan"):
     build.build(fl, names, quiet=False)
+build.build("tsan", ["jitconc"], quiet=False)
 print("setup ok")
